@@ -445,6 +445,15 @@ func vfPathHasList(p vrt.Path) bool {
 // vfChainWireSib is vfChainWire with, in every repeated message field along the path, one more element without
 // any failure in it "before" or "after" the element that carries the path.
 func vfChainWireSib(r vfRepairRoot, p vrt.Path, n int, badAt int, sib string) ([]byte, bool) {
+	return vfChainWireShape(r, p, n, badAt, sib, "MSG\xff")
+}
+
+// vfInvalidShapes: byte shapes of the invalid part (each replaces the 4-byte marker, so no length changes on the wire):
+// one invalid byte; a run of three (its replacement U+FFFD is also three bytes long); a 4-byte code point cut after
+// three bytes.
+var vfInvalidShapes = map[string]string{"run-of-3": "M\xff\xff\xff", "truncated-4-byte-code-point": "M\xf0\x9f\x98"}
+
+func vfChainWireShape(r vfRepairRoot, p vrt.Path, n int, badAt int, sib string, bad string) ([]byte, bool) {
 	const marker = "MSG~"
 	pad := func(f protoreflect.FieldDescriptor) protoreflect.Message { return vrt.NewMessage(f.Message()) }
 	opts := vrt.BuildOpts{Decorate: vrt.DecorateEvent}
@@ -491,7 +500,7 @@ func vfChainWireSib(r vfRepairRoot, p vrt.Path, n int, badAt int, sib string) ([
 	}
 	for k := 1; k <= n; k++ {
 		if badAt == 0 || badAt == k {
-			wire = bytes.Replace(wire, []byte(fmt.Sprintf("%s%02d", marker, k)), []byte(fmt.Sprintf("MSG\xff%02d", k)), 1)
+			wire = bytes.Replace(wire, []byte(fmt.Sprintf("%s%02d", marker, k)), []byte(fmt.Sprintf("%s%02d", bad, k)), 1)
 		}
 	}
 	return wire, true
@@ -548,6 +557,21 @@ func TestVerifC18(t *testing.T) {
 			vfCheckWire(res, "C18/"+sigPath, j.r, wire, fmt.Sprintf("invalid UTF-8 in the failure message at depth %d of %s", depth, j.p), rp, st)
 			_ = before
 		}
+		// other shapes of the invalid bytes at depth 1 and 2
+		for _, shape := range []string{"run-of-3", "truncated-4-byte-code-point"} {
+			for _, depth := range []int{1, 2} {
+				wire, known := vfChainWireShape(j.r, j.p, depth, depth, "", vfInvalidShapes[shape])
+				if !known {
+					continue
+				}
+				sigPath := j.p.String()
+				if len(sigPath) > 120 {
+					sigPath = sigPath[len(sigPath)-120:]
+				}
+				rp := map[string]any{"root": string(j.r.MD.FullName()), "path": j.p.String(), "depth": depth, "shape": shape}
+				vfCheckWire(res, "C18/"+shape+"/"+sigPath, j.r, wire, fmt.Sprintf("invalid UTF-8 (%s) in the failure message at depth %d of %s", shape, depth, j.p), rp, st)
+			}
+		}
 		// repeated fields along the path: a sibling element without a failure before / after the repaired one
 		if vfPathHasList(j.p) {
 			for _, sib := range []string{"before", "after"} {
@@ -603,7 +627,7 @@ func TestVerifC18(t *testing.T) {
 		sk = sk[:12]
 	}
 	res.Set("examples_unknown_to_legacy_schema", sk)
-	res.Set("rule", "for every down-convertible request/response type: every structural path from the descriptors (through oneofs, repeated fields, History events, commands; each type at most twice) to a field of type Failure that the legacy schema also knows x chain depth 1..10 (must be repaired) and 11 (error or correct repair); the same at depth 1-2 with a failure-free sibling element before / after the repaired one in every repeated field on the way; the conversion tables pair every type with the legacy type of the same name; plus all failure messages of the fully populated message at once; non-trivial = inputs the standard codec rejects for invalid UTF-8")
+	res.Set("rule", "for every down-convertible request/response type: every structural path from the descriptors (through oneofs, repeated fields, History events, commands; each type at most twice) to a field of type Failure that the legacy schema also knows x chain depth 1..10 (must be repaired) and 11 (error or correct repair); at depth 1-2 also with a run of three invalid bytes and a truncated 4-byte code point; the same at depth 1-2 with a failure-free sibling element before / after the repaired one in every repeated field on the way; the conversion tables pair every type with the legacy type of the same name; plus all failure messages of the fully populated message at once; non-trivial = inputs the standard codec rejects for invalid UTF-8")
 	res.Set("exhaustive", true)
 	if len(jobs) > 0 {
 		res.Sample(map[string]any{"root": string(jobs[0].r.MD.FullName()), "path": jobs[0].p.String(), "depth": 10})
